@@ -419,25 +419,30 @@ def _native_traj(target, seed, steps=4):
     p2_list = [torch.nn.Parameter(p.detach().clone()) for p in p1]
     # several parameter groups with the same hyperparameters behave like one (the reference keeps a single group)
     groups = 2 if len(shapes) >= 2 and rng.random() < 0.7 else 1
-    p2 = p2_list if groups == 1 else [dict(params=p2_list[:1]), dict(params=p2_list[1:])]
+    def mk_p2():
+        return list(p2_list) if groups == 1 else [dict(params=p2_list[:1]), dict(params=p2_list[1:])]
+
+    p2 = mk_p2()
     common = dict(lr=lr, weight_decay=wd, max_preconditioner_dim=maxdim, use_merge_dims=merge, start_preconditioning_step=steps + 2,
                   precondition_frequency=steps + 2, preconditioner_dtype=torch.float64)
     if target == "sgd":
         ref = torch.optim.SGD(p1, lr=lr, momentum=mom, nesterov=nest, weight_decay=wd)
-        opt = DistributedShampoo(p2, betas=(0.0, 1.0), momentum=mom, use_nesterov=nest, use_decoupled_weight_decay=False,
-                                 grafting_config=st.SGDGraftingConfig(), **common)
+        okw = dict(betas=(0.0, 1.0), momentum=mom, use_nesterov=nest, use_decoupled_weight_decay=False, grafting_config=st.SGDGraftingConfig(), **common)
     elif target == "adagrad":
         ref = torch.optim.Adagrad(p1, lr=lr, eps=eps, weight_decay=wd)
-        opt = DistributedShampoo(p2, betas=(0.0, 1.0), use_decoupled_weight_decay=False, grafting_config=st.AdaGradGraftingConfig(epsilon=eps), **common)
+        okw = dict(betas=(0.0, 1.0), use_decoupled_weight_decay=False, grafting_config=st.AdaGradGraftingConfig(epsilon=eps), **common)
     elif target == "rmsprop":
         ref = torch.optim.RMSprop(p1, lr=lr, alpha=b2, eps=eps, weight_decay=wd)
-        opt = DistributedShampoo(p2, betas=(0.0, b2), use_bias_correction=False, use_decoupled_weight_decay=False,
-                                 grafting_config=st.RMSpropGraftingConfig(beta2=b2, epsilon=eps), **common)
+        okw = dict(betas=(0.0, b2), use_bias_correction=False, use_decoupled_weight_decay=False, grafting_config=st.RMSpropGraftingConfig(beta2=b2, epsilon=eps), **common)
     else:
         cls = torch.optim.Adam if target == "adam" else torch.optim.AdamW
         ref = cls(p1, lr=lr, betas=(b1, b2), eps=eps, weight_decay=wd)
-        opt = DistributedShampoo(p2, betas=(b1, b2), use_bias_correction=True, use_decoupled_weight_decay=(target == "adamw"),
-                                 grafting_config=st.AdamGraftingConfig(beta2=b2, epsilon=eps), **common)
+        okw = dict(betas=(b1, b2), use_bias_correction=True, use_decoupled_weight_decay=(target == "adamw"), grafting_config=st.AdamGraftingConfig(beta2=b2, epsilon=eps), **common)
+    opt = DistributedShampoo(p2, **okw)
+    names = [(f"p{j}", q) for j, q in enumerate(p2_list)]
+    # odd seeds: the Shampoo side is checkpointed and restored into a freshly constructed optimizer in the middle of the warm-up (the
+    # correspondence with torch.optim must survive a save / load: everything the grafted method needs is in the state dict)
+    reload_at = steps // 2 if seed % 2 == 1 else None
     # gradient-presence pattern: torch.optim skips a parameter whose grad is None entirely, and so must the grafted warm-up.  For the
     # bias-corrected Adam variants every gradient is present (Shampoo keeps one step counter per group — the property's own restriction).
     if target in ("adam", "adamw"):
@@ -455,6 +460,13 @@ def _native_traj(target, seed, steps=4):
         for j, (a, b) in enumerate(zip(p1, p2_list)):
             g = torch.randn(a.shape, dtype=torch.float64)
             a.grad, b.grad = (g.clone(), g.clone()) if presence[t][j] else (None, None)
+        if reload_at is not None and t == reload_at:
+            import copy as _copy
+            sd = _copy.deepcopy(opt.distributed_state_dict(key_to_param=iter(names)))
+            opt = DistributedShampoo(mk_p2(), **okw)
+            opt.load_distributed_state_dict(sd, key_to_param=iter(names))
+            for j, (a, b) in enumerate(zip(p1, p2_list)):
+                b.grad = a.grad.clone() if a.grad is not None else None
         ref.step()
         opt.step()
         for j, (a, b) in enumerate(zip(p1, p2_list)):
